@@ -3,6 +3,7 @@
 -/
 import Gmars.Model.Compile
 import Gmars.Spec.Program
+import Gmars.Proofs.ExprProofs
 
 namespace Gmars.Props.C07
 open Gmars
@@ -15,6 +16,42 @@ theorem constants (c : Compile.Compiler) (hv : c.values = []) :
     v.get? "MAXPROCESSES" = some [Compile.numTok c.cfg.processes.toNat] ∧
     v.get? "MINDISTANCE" = some [Compile.numTok c.cfg.distance.toNat] := by
   simp [Compile.loadConstants, hv, SymTab.set, SymTab.has, SymTab.get?]
+
+open ExprProofs in
+/-- `eval_render` — THE theorem of C07. For every concrete syntax tree that respects precedence
+    and left associativity (`WFprec`: integers, + - * / %, sign runs of ANY length, redundant
+    parentheses; literals and intermediate values below 2^500), the model of gmars's pipeline —
+    token check, sign-run folding, double-negative rewriting, concatenation, Go's scanner and
+    constant evaluator, 32-bit range check — applied to the tree's tokens yields exactly the
+    tree's denotation: exact integer arithmetic, / and % truncating toward zero, an error exactly
+    on a zero divisor or a value outside the 32-bit range. -/
+theorem eval_render (c : CST) (hw : WFprec c) (hb : NoBigLit c) :
+    evaluateExpression c.tokens =
+      match denote c with
+      | some v => if -2 ^ 31 ≤ v ∧ v < 2 ^ 31 then .ok v else .err
+      | none => .err :=
+  model_eval_cst c hw hb
+
+open ExprProofs in
+/-- the independent reference evaluator computes the same denotation on every such tree -/
+theorem reference_eval (c : CST) (hw : WFprec c) :
+    Spec.Expr.eval c.etoks = (denote c).map Spec.Expr.V.int :=
+  reference_eval_cst c hw
+
+open ExprProofs in
+/-- hence model and reference agree on every rendering of every well-formed expression -/
+theorem model_agrees_with_reference (c : CST) (hw : WFprec c) (hb : NoBigLit c) :
+    evaluateExpression c.tokens =
+      match Spec.Expr.evalInt c.etoks with
+      | some v => .ok v
+      | none => .err :=
+  ExprProofs.model_agrees_with_reference c hw hb
+
+/-
+  Trusted here: `GoEval` is an executable MODEL of go/types.Eval (scanner with maximal munch,
+  precedence climbing, exact constant arithmetic); it is validated against the real evaluator by
+  the `evalraw` correspondence domain on every run, not verified.
+-/
 
 /-- division by zero is an error in the reference evaluator -/
 theorem division_by_zero_is_error :
